@@ -3,12 +3,12 @@
 # Confirms an independently produced change in a fresh scratch worktree: applies, builds, existing suite passes,
 # the demonstration fails with the change and passes without it. Writes /verif/seeded/<id><suffix>/.
 id=$1; sfx=$2
-src=/tmp/mut/$id
+src=${SRC_ROOT:-/tmp/mut}/$id
 wt=/tmp/vm/$id$sfx
 export GOFLAGS=-mod=mod
 rm -rf $wt; mkdir -p /tmp/vm
 git -C /repo worktree add -q --detach $wt HEAD || exit 2
-demo=$(cd $src && git status --porcelain | grep '^??' | grep '_test.go' | awk '{print $2}' | head -1)
+demo=$(cd $src && git status --porcelain | grep '^??' | grep '_test.go' | grep -v '^?? _' | awk '{print $2}' | head -1)
 [ -z "$demo" ] && { echo "no demo test found"; git -C /repo worktree remove --force $wt; exit 2; }
 pkg=$(dirname $demo)
 cd $wt
